@@ -1,43 +1,226 @@
-"""numpy model (vectors and matrices).  Filled in as the verified functions need it."""
+"""numpy model: 1-D arrays are SeqV(Real), 2-D real arrays are MatV (Array Int -> Array Int -> Real, rows, cols).
+Each operation below is an assumed contract on the dependency (A-LIB).  Shapes are checked by safety obligations."""
 from __future__ import annotations
+
+import ast
 
 import z3
 
 from . import vtypes as ty
-from .lib import _U, _out
+from .lib import _U, _out, _num, _isnum
+from .state import PyList
 
 
-def array_binop(ex, st, op, a, b, node):
-    raise _U("array arithmetic", node)
+def _i(name):
+    return z3.Int(ty.fresh_name(name))
+
+
+def _real(ex, st, v, node):
+    return ty.to_real(_num(ex, st, v, node))
+
+
+def np_array(ex, st, args, kwargs, node):
+    v = args[0]
+    if isinstance(v, ty.MatV):
+        return _out(ty.MatV(v.arr, v.rows, v.cols), st)
+    if isinstance(v, PyList):
+        v = ex.coerce(ty.type_of(ex.to_storable(v)), ex.to_storable(v), node) if ty.type_of(ex.to_storable(v)) is not None else v
+    if isinstance(v, ty.SeqV):
+        if isinstance(v.elem, ty.SeqT) and v.elem.elem in (ty.Real, ty.Int):
+            # list of equal-length rows -> matrix (numpy builds a ragged object array otherwise: safety obligation)
+            rows_arr, lens = v.arrs[0], v.arrs[1]
+            i = _i("ri")
+            cols = z3.If(v.len > 0, z3.Select(lens, 0), z3.IntVal(0))
+            ex.safety(st, "np.array-rows-of-equal-length", ty.FA([i], z3.Implies(z3.And(i >= 0, i < v.len), z3.Select(lens, i) == cols)), node)
+            arr = rows_arr
+            if v.elem.elem is ty.Int:
+                j = _i("rj")
+                arr = z3.Lambda([i], z3.Lambda([j], z3.ToReal(z3.Select(z3.Select(rows_arr, i), j))))
+            return _out(ty.MatV(arr, v.len, cols), st)
+        if v.elem is ty.Int:
+            i = _i("ai")
+            return _out(ty.SeqV(ty.Real, [z3.Lambda([i], z3.ToReal(z3.Select(v.arrs[0], i)))], v.len), st)
+        return _out(ty.SeqV(v.elem, v.arrs, v.len), st)
+    raise _U(f"np.array of {v!r}", node)
+
+
+def np_zeros(ex, st, args, kwargs, node):
+    shape = args[0]
+    if isinstance(shape, tuple) and len(shape) == 2:
+        r, c = ty.to_z3num(_num(ex, st, shape[0], node)), ty.to_z3num(_num(ex, st, shape[1], node))
+        ex.safety(st, "np.zeros-nonnegative-shape", z3.And(r >= 0, c >= 0), node)
+        return _out(ty.MatV(z3.K(z3.IntSort(), z3.K(z3.IntSort(), z3.RealVal(0))), r, c), st)
+    n = ty.to_z3num(_num(ex, st, shape[0] if isinstance(shape, tuple) else shape, node))
+    ex.safety(st, "np.zeros-nonnegative-shape", n >= 0, node)
+    return _out(ty.SeqV(ty.Real, [z3.K(z3.IntSort(), z3.RealVal(0))], n), st)
+
+
+def _slice_bounds(ex, st, sl, n, node):
+    """python slice on an axis of length n with unit step and non-negative bounds -> (lo, hi) clipped to [0, n]"""
+    if sl.step not in (None, 1):
+        raise _U("slice with a step", node)
+    lo = z3.IntVal(0) if sl.start is None else ty.to_z3num(_num(ex, st, sl.start, node))
+    hi = n if sl.stop is None else ty.to_z3num(_num(ex, st, sl.stop, node))
+    ex.safety(st, "slice-bounds-nonnegative (encoding)", z3.And(lo >= 0, hi >= 0), node)
+    lo_c = z3.If(lo > n, n, lo)
+    hi_c = z3.If(hi > n, n, hi)
+    hi_c = z3.If(hi_c < lo_c, lo_c, hi_c)
+    return lo_c, hi_c
+
+
+def mat_getitem(ex, st, m, idx, node):
+    if isinstance(idx, tuple) and len(idx) == 2:
+        a, b = idx
+        if not isinstance(a, slice) and not isinstance(b, slice):
+            i, j = ty.to_z3num(_num(ex, st, a, node)), ty.to_z3num(_num(ex, st, b, node))
+            ex.safety(st, "index", z3.And(i >= 0, i < m.rows, j >= 0, j < m.cols), node)
+            return _out(m.at(i, j), st)
+        if isinstance(a, slice) and not isinstance(b, slice) and a.start is None and a.stop is None:
+            j = ty.to_z3num(_num(ex, st, b, node))
+            ex.safety(st, "index", z3.And(j >= 0, j < m.cols), node)
+            i = _i("ci")
+            return _out(ty.SeqV(ty.Real, [z3.Lambda([i], m.at(i, j))], m.rows), st)
+        if isinstance(b, slice) and not isinstance(a, slice) and b.start is None and b.stop is None:
+            i = ty.to_z3num(_num(ex, st, a, node))
+            ex.safety(st, "index", z3.And(i >= 0, i < m.rows), node)
+            return _out(ty.SeqV(ty.Real, [z3.Select(m.arr, i)], m.cols), st)
+        if isinstance(a, slice) and isinstance(b, slice) and a.start is None and a.stop is None:
+            lo, hi = _slice_bounds(ex, st, b, m.cols, node)
+            i, j = _i("si"), _i("sj")
+            return _out(ty.MatV(z3.Lambda([i], z3.Lambda([j], m.at(i, j + lo))), m.rows, hi - lo), st)
+    if _isnum(idx):
+        i = ty.to_z3num(_num(ex, st, idx, node))
+        ex.safety(st, "index", z3.And(i >= 0, i < m.rows), node)
+        return _out(ty.SeqV(ty.Real, [z3.Select(m.arr, i)], m.cols), st)
+    raise _U(f"matrix index {idx!r}", node)
+
+
+def mat_store(ex, st, m, idx, v, node):
+    """M[i, j] = x ; M[:, j] = vector ; M[:, lo:hi] = matrix   -> new MatV"""
+    if isinstance(idx, tuple) and len(idx) == 2:
+        a, b = idx
+        if not isinstance(a, slice) and not isinstance(b, slice):
+            i, j = ty.to_z3num(_num(ex, st, a, node)), ty.to_z3num(_num(ex, st, b, node))
+            ex.safety(st, "index", z3.And(i >= 0, i < m.rows, j >= 0, j < m.cols), node)
+            return ty.MatV(z3.Store(m.arr, i, z3.Store(z3.Select(m.arr, i), j, _real(ex, st, v, node))), m.rows, m.cols)
+        if isinstance(a, slice) and a.start is None and a.stop is None and not isinstance(b, slice):
+            j = ty.to_z3num(_num(ex, st, b, node))
+            ex.safety(st, "index", z3.And(j >= 0, j < m.cols), node)
+            if not isinstance(v, ty.SeqV):
+                raise _U("column assignment of a non-vector", node)
+            ex.safety(st, "shape(column assignment)", v.len == m.rows, node)
+            i, jj = _i("ci"), _i("cj")
+            return ty.MatV(z3.Lambda([i], z3.Lambda([jj], z3.If(jj == j, ty.to_real(z3.Select(v.arrs[0], i)), m.at(i, jj)))), m.rows, m.cols)
+        if isinstance(a, slice) and a.start is None and a.stop is None and isinstance(b, slice):
+            lo, hi = _slice_bounds(ex, st, b, m.cols, node)
+            if not isinstance(v, ty.MatV):
+                raise _U("block assignment of a non-matrix", node)
+            ex.safety(st, "shape(block assignment)", z3.And(v.rows == m.rows, v.cols == hi - lo), node)
+            i, j = _i("bi"), _i("bj")
+            return ty.MatV(z3.Lambda([i], z3.Lambda([j], z3.If(z3.And(j >= lo, j < hi), v.at(i, j - lo), m.at(i, j)))), m.rows, m.cols)
+    raise _U(f"matrix store at {idx!r}", node)
+
+
+def transpose(v):
+    i, j = _i("ti"), _i("tj")
+    return ty.MatV(z3.Lambda([i], z3.Lambda([j], v.at(j, i))), v.cols, v.rows)
 
 
 def elementwise2(ex, st, a, b, f, node):
-    raise _U("elementwise", node)
+    if isinstance(a, ty.SeqV) and isinstance(b, ty.SeqV):
+        ex.safety(st, "shape(elementwise)", a.len == b.len, node)
+        i = _i("ei")
+        return ty.SeqV(ty.Real, [z3.Lambda([i], f(ty.to_real(z3.Select(a.arrs[0], i)), ty.to_real(z3.Select(b.arrs[0], i))))], a.len)
+    if isinstance(a, ty.SeqV):
+        bb = _real(ex, st, b, node)
+        i = _i("ei")
+        return ty.SeqV(ty.Real, [z3.Lambda([i], f(ty.to_real(z3.Select(a.arrs[0], i)), bb))], a.len)
+    if isinstance(b, ty.SeqV):
+        aa = _real(ex, st, a, node)
+        i = _i("ei")
+        return ty.SeqV(ty.Real, [z3.Lambda([i], f(aa, ty.to_real(z3.Select(b.arrs[0], i))))], b.len)
+    if isinstance(a, ty.MatV) and isinstance(b, ty.MatV):
+        ex.safety(st, "shape(elementwise)", z3.And(a.rows == b.rows, a.cols == b.cols), node)
+        i, j = _i("ei"), _i("ej")
+        return ty.MatV(z3.Lambda([i], z3.Lambda([j], f(a.at(i, j), b.at(i, j)))), a.rows, a.cols)
+    if isinstance(a, ty.MatV):
+        bb = _real(ex, st, b, node)
+        i, j = _i("ei"), _i("ej")
+        return ty.MatV(z3.Lambda([i], z3.Lambda([j], f(a.at(i, j), bb))), a.rows, a.cols)
+    if isinstance(b, ty.MatV):
+        aa = _real(ex, st, a, node)
+        i, j = _i("ei"), _i("ej")
+        return ty.MatV(z3.Lambda([i], z3.Lambda([j], f(aa, b.at(i, j)))), b.rows, b.cols)
+    raise _U("elementwise operation", node)
 
 
-def seq_slice(ex, st, cont, idx, node):
-    raise _U("slice of symbolic sequence", node)
+def array_binop(ex, st, op, a, b, node):
+    fs = {ast.Add: lambda x, y: x + y, ast.Sub: lambda x, y: x - y, ast.Mult: lambda x, y: x * y}
+    if type(op) in fs:
+        return elementwise2(ex, st, a, b, fs[type(op)], node)
+    if isinstance(op, ast.Div) and not isinstance(b, (ty.SeqV, ty.MatV)):
+        bb = _real(ex, st, b, node)
+        ex.safety(st, "div-by-zero", bb != 0, node)
+        return elementwise2(ex, st, a, bb, lambda x, y: x / y, node)
+    raise _U(f"array operator {op.__class__.__name__}", node)
+
+
+def seq_slice(ex, st, v, sl, node):
+    lo, hi = _slice_bounds(ex, st, sl, v.len, node)
+    i = _i("si")
+    return ty.SeqV(v.elem, [z3.Lambda([i], z3.Select(a, i + lo)) for a in v.arrs], hi - lo)
 
 
 def seq_fancy(ex, st, cont, idx, node):
     raise _U("fancy index", node)
 
 
-def mat_getitem(ex, st, cont, idx, node):
-    raise _U("matrix index", node)
+# ---------------------------------------------------------------------------- sums
+SUM = z3.Function("Sum", z3.ArraySort(z3.IntSort(), z3.RealSort()), z3.IntSort(), z3.RealSort())   # Sum(a, n) = a[0] + .. + a[n-1]
 
 
-def mat_store(ex, st, m, idx, v, node):
-    raise _U("matrix store", node)
-
-
-def transpose(v):
-    i, j = z3.Int(ty.fresh_name("ti")), z3.Int(ty.fresh_name("tj"))
-    return ty.MatV(z3.Lambda([i], z3.Lambda([j], v.at(j, i))), v.cols, v.rows)
-
-
-def np_array(ex, st, args, kwargs, node):
+def np_sum(ex, st, args, kwargs, node):
     v = args[0]
-    if isinstance(v, (ty.SeqV, ty.MatV)):
-        return _out(v, st)
-    raise _U(f"np.array of {v!r}", node)
+    if isinstance(v, ty.SeqV) and "axis" not in kwargs:
+        a = v.arrs[0]
+        if v.elem is ty.Int:
+            i = _i("si")
+            a = z3.Lambda([i], z3.ToReal(z3.Select(a, i)))
+        return _out(SUM(a, v.len), st)
+    raise _U(f"np.sum of {v!r}", node)
+
+
+def np_tile(ex, st, args, kwargs, node):
+    v, reps = args
+    if isinstance(v, ty.SeqV) and isinstance(reps, tuple) and len(reps) == 2 and reps[1] == 1:
+        n = ty.to_z3num(_num(ex, st, reps[0], node))
+        ex.safety(st, "np.tile-nonnegative-reps", n >= 0, node)
+        i = _i("ti")
+        return _out(ty.MatV(z3.Lambda([i], v.arrs[0] if v.elem is ty.Real else z3.Lambda([_i("tj")], z3.ToReal(z3.Select(v.arrs[0], _i("tk"))))), n, v.len), st) \
+            if v.elem is ty.Real else _U("np.tile of an integer vector", node)
+    raise _U(f"np.tile({v!r}, {reps!r})", node)
+
+
+def np_argmax(ex, st, args, kwargs, node):
+    (v,) = args
+    if isinstance(v, ty.MatV) and not kwargs:
+        ex.safety(st, "np.argmax-of-empty-array", z3.And(v.rows > 0, v.cols > 0), node)
+        k = _i("argmax")
+        i, j = _i("ai"), _i("aj")
+        # flat index of a maximal cell (row-major); only the range and maximality are modelled
+        st.assume(z3.And(k >= 0, k < v.rows * v.cols))
+        return _out(k, st)
+    raise _U(f"np.argmax of {v!r}", node)
+
+
+def np_unravel_index(ex, st, args, kwargs, node):
+    k, shape = args
+    if isinstance(shape, tuple) and len(shape) == 2:
+        k = ty.to_z3num(_num(ex, st, k, node))
+        r, c = ty.to_z3num(shape[0]), ty.to_z3num(shape[1])
+        ex.safety(st, "np.unravel_index-in-range", z3.And(k >= 0, k < r * c, c > 0), node)
+        qi, ri = _i("uq"), _i("ur")
+        # k = q * c + r with 0 <= r < c  (introduced by their defining equation: no nonlinear div/mod handed to the solver)
+        st.assume(z3.And(k == qi * c + ri, ri >= 0, ri < c, qi >= 0, qi < r))
+        return _out((qi, ri), st)
+    raise _U("np.unravel_index", node)
